@@ -209,26 +209,35 @@ theorem datumInvG (cfg : Cfg) (s0 : St) (htokH : TokH cfg s0) : ∀ f, DatumInvA
 
 /-- **`next_datum` consumes a valid chunk, every option set** (one call of `Parser::next_datum` /
     one item of the datum iterator). -/
-theorem C17_next_datum_input_valid_all {cfg : Cfg} {S S' : St} {d : Option Datum}
+theorem C17_next_datum_input_valid_all_num {cfg : Cfg} {S S' : St} {d : Option Datum}
     {w : List UInt8} (h : nextDatumTop cfg S = .ok d S')
     (hm : S.rd.mode ≠ .str) (htv : TV S.rd.rest)
-    (hnb : cfg.opts.string = .elisp → NoByteEsc S.rd.rest)
+    (hnb : cfg.opts.string = .elisp → NoNumEsc S.rd.rest)
     (hw : S.rd.rest = w ++ S'.rd.rest) :
     Utf8.valid w = true := by
   unfold nextDatumTop at h
   obtain ⟨f, s1, hf, h⟩ := bind_ok h
   rw [apiFuel_ok hf] at h
-  have := (datumInvG cfg S (tokH_of_noByteEsc hnb) f).1 h ⟨VC.refl S, htv, hm⟩
+  have := (datumInvG cfg S (tokH_of_noNumEsc hnb) f).1 h ⟨VC.refl S, htv, hm⟩
   exact this.vc.valid_of hw
+
+/-- the statement with `NoByteEsc`, a corollary of `C17_next_datum_input_valid_all_num` -/
+theorem C17_next_datum_input_valid_all {cfg : Cfg} {S S' : St} {d : Option Datum}
+    {w : List UInt8} (h : nextDatumTop cfg S = .ok d S')
+    (hm : S.rd.mode ≠ .str) (htv : TV S.rd.rest)
+    (hnb : cfg.opts.string = .elisp → NoByteEsc S.rd.rest)
+    (hw : S.rd.rest = w ++ S'.rd.rest) :
+    Utf8.valid w = true :=
+  C17_next_datum_input_valid_all_num h hm htv (fun hel => (hnb hel).toNum) hw
 
 /-- **C17, input clause, whole inputs, datum reader, EVERY option set**: if `datum::from_slice` /
     `datum::from_reader` accepts `bytes`, the trivia of `bytes` are well-formed and — only needed
-    under the Emacs Lisp string syntax — `bytes` satisfies `NoByteEsc`, then `bytes` is valid
+    under the Emacs Lisp string syntax — `bytes` satisfies `NoNumEsc`, then `bytes` is valid
     UTF-8. -/
-theorem C17_whole_input_valid_datum_all {cfg : Cfg} {mode : Mode} {bytes : List UInt8}
+theorem C17_whole_input_valid_datum_all_num {cfg : Cfg} {mode : Mode} {bytes : List UInt8}
     {faulty : Bool} {d : Datum} {S' : St}
     (h : fromTraitDatum cfg (initSt mode bytes faulty) = .ok d S')
-    (hm : mode ≠ .str) (htv : TV bytes) (hnb : cfg.opts.string = .elisp → NoByteEsc bytes) :
+    (hm : mode ≠ .str) (htv : TV bytes) (hnb : cfg.opts.string = .elisp → NoNumEsc bytes) :
     Utf8.valid bytes = true := by
   unfold fromTraitDatum at h
   obtain ⟨x, s1, he, h⟩ := bind_ok h
@@ -240,7 +249,7 @@ theorem C17_whole_input_valid_datum_all {cfg : Cfg} {mode : Mode} {bytes : List 
   obtain ⟨f, s4, hf, hn⟩ := bind_ok hn
   rw [apiFuel_ok hf] at hn
   have hs3 := (datumInvG cfg (initSt mode bytes faulty)
-    (tokH_of_noByteEsc (s0 := initSt mode bytes faulty) (by exact hnb)) f).1 hn
+    (tokH_of_noNumEsc (s0 := initSt mode bytes faulty) (by exact hnb)) f).1 hn
     ⟨VC.refl _, by exact htv, by exact hm⟩
   cases ov with
   | none => simp [peekErr] at he
@@ -249,13 +258,29 @@ theorem C17_whole_input_valid_datum_all {cfg : Cfg} {mode : Mode} {bytes : List 
     obtain ⟨hinv, hrest⟩ := expectEnd_inv hend hs3
     exact hinv.vc.valid_of (w := bytes) (by rw [hrest]; simp [initSt])
 
+/-- the statement with `NoByteEsc`, a corollary of `C17_whole_input_valid_datum_all_num` -/
+theorem C17_whole_input_valid_datum_all {cfg : Cfg} {mode : Mode} {bytes : List UInt8}
+    {faulty : Bool} {d : Datum} {S' : St}
+    (h : fromTraitDatum cfg (initSt mode bytes faulty) = .ok d S')
+    (hm : mode ≠ .str) (htv : TV bytes) (hnb : cfg.opts.string = .elisp → NoByteEsc bytes) :
+    Utf8.valid bytes = true :=
+  C17_whole_input_valid_datum_all_num h hm htv (fun hel => (hnb hel).toNum)
+
 /-- the rule of the differential oracle, datum reader, every option set -/
+theorem C17_whole_input_valid_datum_all_no_comment_num {cfg : Cfg} {mode : Mode} {bytes : List UInt8}
+    {faulty : Bool} {d : Datum} {S' : St}
+    (h : fromTraitDatum cfg (initSt mode bytes faulty) = .ok d S')
+    (hm : mode ≠ .str) (hno : ∀ b ∈ bytes, b ≠ 59) (hnb : NoNumEsc bytes) :
+    Utf8.valid bytes = true :=
+  C17_whole_input_valid_datum_all_num h hm (TV.of_no59 hno) (fun _ => hnb)
+
+/-- the statement with `NoByteEsc`, a corollary of `C17_whole_input_valid_datum_all_no_comment_num` -/
 theorem C17_whole_input_valid_datum_all_no_comment {cfg : Cfg} {mode : Mode} {bytes : List UInt8}
     {faulty : Bool} {d : Datum} {S' : St}
     (h : fromTraitDatum cfg (initSt mode bytes faulty) = .ok d S')
     (hm : mode ≠ .str) (hno : ∀ b ∈ bytes, b ≠ 59) (hnb : NoByteEsc bytes) :
     Utf8.valid bytes = true :=
-  C17_whole_input_valid_datum_all h hm (TV.of_no59 hno) (fun _ => hnb)
+  C17_whole_input_valid_datum_all_no_comment_num h hm hno hnb.toNum
 
 /-- the hypotheses are met under the Emacs Lisp options (`exInputEl`), slice and stream source,
     and the theorem applies -/
@@ -272,11 +297,22 @@ example : Utf8.valid exInputEl = true := by
       (noByteEscB_spec exInputEl_accepted.2.2.1)
   · cases h
 
-/-- `NoByteEsc` is needed for the datum reader too: the three witnesses are accepted -/
+/-- a condition is needed for the datum reader too: the two numeric witnesses are accepted; the
+    blank witness is rejected after the repair of the escaped blank -/
 theorem noByteEsc_needed_datum :
     acceptsAllDatum cfgEl .slice wHex = true ∧ acceptsAllDatum cfgEl .slice wOct = true ∧
-    acceptsAllDatum cfgEl .slice wBlank = true := by
+    acceptsAllDatum cfgEl .slice wBlank = false ∧ acceptsAllDatum cfgEl .io wBlank = false := by
   decide +kernel
+
+/-- the `_num` theorem applies to the input with escaped blanks -/
+example : Utf8.valid exInputElBlank = true := by
+  have h : acceptsAllDatum cfgEl .slice exInputElBlank = true := by decide +kernel
+  unfold acceptsAllDatum at h
+  split at h
+  · rename_i d S' heq
+    exact C17_whole_input_valid_datum_all_no_comment_num heq (by decide) (by decide)
+      (noNumEscB_spec exInputElBlank_accepted.2.2.1)
+  · cases h
 
 end InAllOpts
 end Parse
